@@ -289,6 +289,7 @@ type c18Shadow struct {
 	mcpOwner uint64
 	clock    int64
 	script   bool
+	health   map[uint64]state.NodeHealthReport
 }
 
 func c18Node(id uint64, voter bool) state.Node {
@@ -389,8 +390,22 @@ func (s *c18Shadow) next(g *Gen) command.Command {
 			return s.genInit(g, cmd, mode)
 		}
 	}
+	if len(s.health) > 0 && g.R.Chance(9) {
+		// an exact duplicate of a stored health report: Noop, and the stored report must stay untouched
+		for _, hid := range s.nodeIDs() {
+			if last, ok := s.health[hid]; ok {
+				cp := last
+				cmd.Kind, cmd.NodeHealth = command.KindReportNodeHealth, &cp
+				if g.R.Bool() {
+					break
+				}
+			}
+		}
+		g.Count("shape:duplicate-health-report")
+		return cmd
+	}
 	// steer towards commands that can take effect in the state the shadow expects
-	w := []int{3, 10, 4, 5, 12, 3, 1, 1, 1, 1, 1, 8, 4, 5, 5}
+	w := []int{3, 10, 4, 5, 12, 3, 1, 1, 1, 1, 1, 12, 4, 5, 5}
 	freeSlot, moveTask, bootTask, anyTask := false, false, false, false
 	for sl := uint32(1); sl <= s.slotCnt; sl++ {
 		t := s.tasks[sl]
@@ -877,6 +892,16 @@ func (s *c18Shadow) next(g *Gen) command.Command {
 		}
 		h := &state.NodeHealthReport{NodeID: id, Status: []state.NodeStatus{state.NodeStatusAlive, state.NodeStatusSuspect}[g.R.Intn(2)], RuntimeReady: g.R.Bool(),
 			ObservedControlRevision: s.rev, ReportSeq: uint64(g.R.Intn(3)), ReportedAtUnixMilli: 1750000000000 + int64(g.R.Intn(3))}
+		dup := false
+		if len(s.health) > 0 && mode == 0 && g.R.Chance(50) {
+			for _, hid := range s.nodeIDs() {
+				if last, ok := s.health[hid]; ok && (!dup || g.R.Bool()) {
+					cp := last
+					h, id, dup = &cp, hid, true // an exact duplicate: Noop, and the stored report must stay untouched
+				}
+			}
+			g.Count("shape:duplicate-health-report")
+		}
 		if mode == 2 {
 			if g.R.Bool() {
 				h.NodeID = 66
@@ -884,8 +909,13 @@ func (s *c18Shadow) next(g *Gen) command.Command {
 				h.Status = "bad"
 			}
 		}
+		if mode == 0 {
+			s.health[id] = *h
+		}
 		cmd.NodeHealth = h
-		cmd.ExpectedRevision = s.expRev(g, mode)
+		if !dup {
+			cmd.ExpectedRevision = s.expRev(g, mode)
+		}
 		return cmd
 	case 12: // hash slot table
 		cmd.Kind = command.KindReplaceHashSlotTable
@@ -1048,7 +1078,7 @@ func genC18(g *Gen) {
 		if short {
 			n = g.R.Range(3, 6)
 		}
-		sh := &c18Shadow{nodes: map[uint64]state.Node{}, slots: map[uint32]*c18Slot{}, tasks: map[uint32]*c18Task{}, slotCnt: 3, script: g.R.Chance(45)}
+		sh := &c18Shadow{nodes: map[uint64]state.Node{}, slots: map[uint32]*c18Slot{}, tasks: map[uint32]*c18Task{}, slotCnt: 3, script: g.R.Chance(45), health: map[uint64]state.NodeHealthReport{}}
 		idx := uint64(g.R.Range(1, 5))
 		term := uint64(1)
 		for i := 0; i < n; i++ {
